@@ -355,8 +355,14 @@ func stdPackages() []string {
 func registerImportChecks() {
 	mk := func(prop string, sane bool, gen func(cx *CheckCtx) []*Case) {
 		checks[prop] = &PropCheck{
-			Gen:    gen,
-			Oracle: func(cx *CheckCtx, runs []*CaseRun) []Finding { return importFindings(cx, runs, prop) },
+			Gen: gen,
+			Oracle: func(cx *CheckCtx, runs []*CaseRun) []Finding {
+				fs := importFindings(cx, runs, prop)
+				if prop == "C18" {
+					fs = append(fs, gennamesFindings(cx)...)
+				}
+				return fs
+			},
 		}
 	}
 	std := func(cx *CheckCtx, quick, thorough int, cfg FileCfg, sane bool) []*Case {
